@@ -123,7 +123,10 @@ class DiscoverSubcircuits(UsedQubitIndicesVisitor):
                         f"{self.p_gate} and {self.m_gate} cannot be parallel to other statements"
                     )
 
-        if had_started and (reps != 1) and (len(self.subcircuits) != count):
+        if had_started and (reps != 1) and (open_at_entry.end is not None):
+            # The subcircuit that was open when the body was entered is
+            # measured in a body that does not run exactly once. (One that
+            # is superseded by a prepare_all of the body is not measured.)
             raise JaqalError("measure_all -> prepare_all not supported in loops")
 
         if (
